@@ -72,6 +72,38 @@ def judge(prog, res):
         res.sample({'bytes_without_c': len(u[1]), 'bytes_with_c': len(c[1]), 'source': src[:500]})
 
 
+def const_target_job(lo, hi):
+    """call / tail / j / jal to a CONSTANT (absolute) address at the edge of the near range, behind code that shrinks (with -c, or
+    through an align): the assembler chooses between jal and auipc+jalr itself, so whatever assembles without -c must assemble
+    with it - and a target that is in reach of the far form must be accepted in both modes."""
+    a = env.load_asm()
+    res = env.Result()
+    pres = [('nop',), ('li x5, 5',), ('mv x5, x6',), ('nop', 'nop', 'nop'), ('add x8, x8, x9',), ('nop', 'align 64'), ('dh 1', 'align 8', 'nop'), ()]
+    for pre in pres[lo:hi]:
+        pess = sum(64 if p.startswith('align 64') else 8 if p.startswith('align 8') else 2 if p.startswith('dh') else 8 if p.startswith('li') else 4 for p in pre)
+        for edge in (1 << 20, -(1 << 20), 2048, -2048):
+            for d in range(-12, 14, 2):
+                K = pess + edge + d
+                if K < 0:
+                    continue
+                for name in ('call', 'tail', 'j', 'jal'):
+                    src = 'KTARGET = %d\n' % K + ''.join(p + '\n' for p in pre) + '%s KTARGET\n' % name
+                    res.evaluations += 1
+                    u = progcheck.assemble(a, src, False)
+                    c = progcheck.assemble(a, src, True)
+                    if name in ('call', 'tail') and u[0] != 'ok':
+                        res.fail('const_target:refused:%s' % name, '%r is refused without -c although the far form reaches every 32-bit address: %s' % (src, str(u[1])[-160:]),
+                                 {'kind': 'text', 'source': src})
+                    elif u[0] == 'ok' and c[0] != 'ok' and name in ('call', 'tail'):
+                        res.fail('only_with_c:const_target:%s' % name, '%r assembles without -c and is refused with it: %s' % (src, str(c[1])[-160:]), {'kind': 'text', 'source': src})
+                    elif u[0] == 'ok' and c[0] != 'ok':
+                        res.count('jump_to_constant_out_of_reach_in_compressed_layout')   # j / jal as written cannot reach: the known finding's class
+                    elif u[0] == 'ok' and u[1] != c[1]:
+                        res.nontrivial_count += 1
+    res.sample({'constant_target_prefixes': [list(p) for p in pres[lo:hi]]})
+    return res
+
+
 def run(tier):
     chk = env.Check(PROP, tier)
     chk.rule = ('Hypothesis IR programs from two profiles (RVC operand-set edges with constants/aliases as operands and shift '
@@ -82,9 +114,24 @@ def run(tier):
     progcheck.run_corpus(chk, PROP, judge)
     for i, prof in enumerate(PROFILES):
         progcheck.run_sharded(chk, PROP + ('' if i == 0 else '#%d' % i), prof, N[tier] // len(PROFILES), 'judge', __name__)
+    chk.merge(env.run_shards(const_target_job, [(i, i + 1) for i in range(8)]))
+    chk.rule += ('; plus call / tail / j / jal to a constant address within 12 bytes of the +-1 MiB and +-2 KiB edges behind 8 kinds of shrinking code: '
+                 'call / tail must be accepted in both modes (the far form reaches everything)')
     _prog.check_vacuity(chk)
     return chk.finish()
 
 
 def replay(path):
+    import json
+    with open(path) as f:
+        c = json.load(f)['case']
+    if c.get('kind') == 'text':
+        a = env.load_asm()
+        u, cc = progcheck.assemble(a, c['source'], False), progcheck.assemble(a, c['source'], True)
+        if u[0] != 'ok' or cc[0] != 'ok':
+            print('VIOLATION property=%s replay=%s' % (PROP, path))
+            print('  %r: without -c %s, with -c %s' % (c['source'], u[0], cc[0]))
+            return env.EXIT_VIOLATION
+        print('replay holds: %s' % path)
+        return env.EXIT_OK
     return progcheck.replay_program(path, judge)
